@@ -578,3 +578,68 @@ generate_count_dict = Contract(
                  'A3 int(site/bin_size) exact'],
 )
 UNITS.append(generate_count_dict)
+
+
+# ------------------------------------------------------------------------------ get_binned_counts: one job per (contig, file), results added
+def gbc_setup(eng):
+    eng.ghost.clear()
+    eng.ghost['jobs'] = []
+    eng.spec_env['GHOST'] = eng.ghost
+    n = {k: named(INT, 'count_%s' % k) for k in ('a1', 'a2', 'b1', 'c1')}
+    for v in n.values():
+        eng.assume(v.z >= 0)
+    eng.spec_env['N'] = n
+    per_job = {('x.bam', 'chr1'): {('chr1', 0): {'cellA': n['a1']}}, ('y.bam', 'chr1'): {('chr1', 0): {'cellA': n['a2'], 'cellB': n['b1']}},
+               ('x.bam', 'chr2'): {('chr2', 0): {'cellA': n['c1']}}, ('y.bam', 'chr2'): {}}
+
+    def worker(e, f, a, k, nn):
+        job = a[0]
+        e.ghost['jobs'].append(tuple(job))
+        cc = externals.DefaultDict(externals.col_counter_factory)
+        for key, cells in per_job[(job[0], job[2])].items():
+            c = externals.CounterDict()
+            c.update(cells)
+            cc[key] = c
+        return (cc, job[2], job[0])
+    eng.loader.call_hooks['singlecellmultiomics.bamProcessing.bamBinCounts._generate_count_dict'] = worker
+
+    class Sizes:
+        def vc_getattr(self, e, attr, node=None):
+            from pyvc.engine import BoundMethod
+            return BoundMethod('keys', lambda e2, a, k: ['chr1', 'chr2'])
+    eng.loader.call_hooks['singlecellmultiomics.bamProcessing.bamBinCounts.get_contig_sizes'] = lambda e, f, a, k, nn: Sizes()
+    eng.loader.call_hooks['singlecellmultiomics.bamProcessing.bamFunctions.get_contig_sizes'] = lambda e, f, a, k, nn: Sizes()
+    pool = Obj('Pool', {})
+    pool.vc_immutable = True
+
+    def imap(e, o, fn, jobs, *a, **k):
+        return [e.call(fn, [j], {}) for j in e.iterate_concrete(jobs)]
+    stubs.STUBS['Pool'] = {'methods': {'__enter__': lambda e, o: o, '__exit__': lambda e, o, *a: None, 'imap': imap}, 'props': {}, 'setters': {}}
+    externals.EXTRA['multiprocessing.Pool'] = lambda e, a, k, nn: pool
+
+    def frame(e, a, k, nn):
+        o = Obj('Frame', {'T': a[0]})
+        o.vc_immutable = True
+        return o
+    externals.EXTRA['pandas.DataFrame'] = frame
+
+
+get_binned_counts = Contract(
+    PROP, F + '::get_binned_counts', name='get_binned_counts[two files x two contigs]',
+    params={'bams': ('const', ['x.bam', 'y.bam']), 'bin_size': 'int', 'regions': 'none', 'filter_function': 'none', 'n_threads': 'none'},
+    requires=['bin_size >= 1'],
+    setup=gbc_setup,
+    ensures={
+        'one_job_per_contig_and_file': 'sorted([(j[0], j[2]) for j in GHOST["jobs"]]) == '
+                                       '[("x.bam", "chr1"), ("x.bam", "chr2"), ("y.bam", "chr1"), ("y.bam", "chr2")] and '
+                                       'all(j[1] == bin_size and j[3] is None and j[4] is None and j[5] is None for j in GHOST["jobs"])',
+        'counts_of_the_jobs_are_added_cell_by_cell':
+            'result[("chr1", 0)]["cellA"] == N["a1"] + N["a2"] and result[("chr1", 0)]["cellB"] == N["b1"] and '
+            'result[("chr2", 0)]["cellA"] == N["c1"] and len(result) == 2',
+    },
+    raises={},
+    bounded='two BAM files, two contigs, symbolic counts',
+    assumptions=['multiprocessing.Pool.imap applies the worker to every job in order (A4); _generate_count_dict through its own '
+                 'contract above; pandas.DataFrame(...).T is the table of the dictionary (A4)'],
+)
+UNITS.append(get_binned_counts)
